@@ -390,6 +390,21 @@ func init() {
 		return r
 	})
 
+	// ----- database/sql row iteration: "no rows" (statement-contract harness) -----
+	reg("(*database/sql.Rows).Next", func(e *Exec, c *frame, fn *ssa.Function, a []Value) Value { return mkBool(false) })
+	reg("(*database/sql.Rows).Close", func(e *Exec, c *frame, fn *ssa.Function, a []Value) Value { return Iface{} })
+	reg("(*database/sql.Rows).Err", func(e *Exec, c *frame, fn *ssa.Function, a []Value) Value { return Iface{} })
+	reg("(*database/sql.Row).Scan", func(e *Exec, c *frame, fn *ssa.Function, a []Value) Value {
+		pkg := e.P.prog.ImportedPackage("database/sql")
+		g := pkg.Var("ErrNoRows")
+		cell := e.global(g)
+		if it, ok := (*cell).(Iface); !ok || it.t == nil {
+			*cell = e.newErrorString(Str{s: "sql: no rows in result set"})
+		}
+		return *cell
+	})
+	reg("(*database/sql.Rows).Scan", func(e *Exec, c *frame, fn *ssa.Function, a []Value) Value { return Iface{} })
+
 	// ----- crypto/sha256 as an injective stub: the "digest" is the written data itself (collision freedom assumed) -----
 	reg("(*crypto/sha256.digest).Write", func(e *Exec, c *frame, fn *ssa.Function, a []Value) Value {
 		p := a[0].(*Value)
